@@ -73,6 +73,17 @@ def build(ctx):
     if not exe:
         ctx.corr_broken.append({"what": "harness h_simcam_conc does not compile against the repository", "log": log[-3000:]})
         return None, None
+    # the scheduler's own self-test (mutual exclusion, lost-wake-up toy, replay determinism, DFS helper, HANG oracle)
+    st, log2 = C.compile_harness("detsched_selftest", [os.path.join(C.VERIF, "harness/detsched/selftest.c"),
+                                                       os.path.join(C.VERIF, "harness/detsched/detsched.c")], includes=incs[:1])
+    if not st:
+        ctx.corr_broken.append({"what": "detsched self-test does not compile", "log": log2[-2000:]})
+        return None, None
+    rc, out, err = C.sh([st, "all"], timeout=180, env=C.SAN_ENV)
+    ctx.cov["detsched_selftest"] = out.strip().split("\n")[-1] if out.strip() else "no output"
+    if rc != 0 or "SELFTEST OK" not in out:
+        ctx.corr_broken.append({"what": "detsched self-test failed", "log": (out + err)[-2000:]})
+        return None, None
     drv = C.driver_path("acq_simconc")
     if not os.path.exists(drv):
         ok, log, failed = C.lake_build(["acq_simconc"])
